@@ -76,6 +76,7 @@ structure Run where
   watchErrMut : Option Nat := none   -- the watcher reports a fatal error while mutating request k is in flight
   envDel : List Id := []
   initial : List Id := []        -- objects whose current status the watcher reports before its sync event
+  failInfo : List String := []   -- the kinds (`Id.kind`) whose `InfoHelper.BuildInfo` fails in this run (no REST client / unmapped kind)
 deriving Repr, Inhabited
 
 def invId : String := "inv-1"
@@ -487,7 +488,11 @@ def mutateSource (s : St) (m : Manifest) : Except Reason (Option String) :=
       | some none => .error "mutate"
       | some (some l) => if m.mutBad then .error "mutate" else .ok (some l.rev)
 
+/-- `ApplyTask.Start`, per object: first `InfoHelper.BuildInfo` (fails for the kinds in `run.failInfo`: Failed, no filter is
+evaluated, no request), then the filter chain, then the apply-time mutation -/
 def applyDecision (s : St) (m : Manifest) : ApplyDecision :=
+  if m.id.kind ∈ s.run.failInfo then .fail "info"
+  else
   match policyApply s m.id with
   | none => .fail "fault"
   | some (some r) => .skip r
@@ -499,6 +504,15 @@ def applyDecision (s : St) (m : Manifest) : ApplyDecision :=
       match mutateSource s m with
       | .error r => .fail r
       | .ok frm => .go frm
+
+/-- a failing `BuildInfo` decides the step, whatever the filters would say -/
+theorem applyDecision_info (s : St) (m : Manifest) (h : m.id.kind ∈ s.run.failInfo) : applyDecision s m = .fail "info" := by
+  simp [applyDecision, h]
+
+/-- an object is handed to kubectl only if its `Info` could be built -/
+theorem applyDecision_go_info (s : St) (m : Manifest) (frm : Option String) (h : applyDecision s m = .go frm) :
+    m.id.kind ∉ s.run.failInfo := by
+  intro hin; rw [applyDecision_info s m hin] at h; cases h
 
 def applyFail (group : String) (s : St) (id : Id) (r : Reason) : St :=
   { (s.emit (.op "apply" group id "Failed" r)) with mgr := s.mgr.add id .apply .failed }
